@@ -8,7 +8,7 @@
 namespace sw {
 using namespace vf;
 
-inline std::string scratch_root() { static std::string d; if (d.empty()) { d = std::string(getenv("VERIF_DIR") ? getenv("VERIF_DIR") : ".") + "/build/run/w" + std::to_string(getpid()); std::filesystem::create_directories(d); } return d; }
+inline std::string scratch_root() { static std::string d; if (d.empty()) { d = scratch_base() + "/w" + std::to_string(getpid()); std::filesystem::create_directories(d); } return d; }
 inline void cleanup_scratch() { std::error_code ec; std::filesystem::remove_all(scratch_root(), ec); }
 
 // phase hook dispatch
